@@ -511,6 +511,7 @@ impl Registry {
                     write!(sdl, "extend ").ok();
                 }
                 write!(sdl, "interface {}", name).ok();
+                self.write_implements(sdl, name);
 
                 if options.federation {
                     if let Some(keys) = keys {
@@ -534,8 +535,6 @@ impl Registry {
                 for directive in directive_invocations {
                     write!(sdl, " {}", directive.sdl()).ok();
                 }
-
-                self.write_implements(sdl, name);
 
                 writeln!(sdl, " {{").ok();
                 Self::export_fields(sdl, fields.values(), options);
@@ -735,10 +734,12 @@ pub(super) fn write_description(
     let tabs = tab(options).repeat(level);
 
     if options.prefer_single_line_descriptions && !description.contains('\n') {
-        let description = description.replace('"', r#"\""#);
+        let description = escape_string(description);
         writeln!(sdl, "{tabs}\"{description}\"").ok();
     } else {
-        let description = description.replace('\n', &format!("\n{tabs}"));
+        let description = description
+            .replace("\"\"\"", "\\\"\"\"")
+            .replace('\n', &format!("\n{tabs}"));
         writeln!(sdl, "{tabs}\"\"\"\n{tabs}{description}\n{tabs}\"\"\"").ok();
     }
 }
@@ -792,6 +793,7 @@ fn escape_string(s: &str) -> String {
     for c in s.chars() {
         let ec = match c {
             '\\' => Some("\\\\"),
+            '"' => Some("\\\""),
             '\x08' => Some("\\b"),
             '\x0c' => Some("\\f"),
             '\n' => Some("\\n"),
